@@ -270,6 +270,9 @@ class _FSView:
         snap.files = self.files
         return snap
 
+    def __universe__(self):
+        return list(self.files)
+
 
 class _FSSnap:
     files = None
